@@ -195,7 +195,16 @@ func init() {
 	}
 }
 
+var boundarySizes = []int{255, 256, 257, 4095, 4096, 4097, 8192, 32767, 32768, 32769, 65535, 65536, 65537, 131072, 1 << 20}
+
 func genContent(t *rapid.T, big bool) []byte {
+	if rapid.IntRange(0, 99).Draw(t, "boundarySize") < 6 {
+		n := boundarySizes[rapid.IntRange(0, len(boundarySizes)-1).Draw(t, "size")]
+		if rapid.Bool().Draw(t, "compressible") {
+			return []byte(strings.Repeat("z", n))
+		}
+		return prand(uint32(rapid.IntRange(1, 1<<30).Draw(t, "seed")), n)
+	}
 	w := rapid.IntRange(0, 99).Draw(t, "class")
 	switch {
 	case w < 25:
